@@ -1185,8 +1185,12 @@ impl RepDefUnraveler {
         levels_to_rep.push(0);
         for meaning in def_meaning.as_ref() {
             match meaning {
-                DefinitionInterpretation::AllValidItem | DefinitionInterpretation::AllValidList => {
+                DefinitionInterpretation::AllValidItem => {
                     // There is no corresponding level, so nothing to put in levels_to_rep
+                }
+                DefinitionInterpretation::AllValidList => {
+                    // No level of its own, but the levels of outer layers sit one list further out
+                    rep_counter += 1;
                 }
                 DefinitionInterpretation::NullableItem => {
                     // Some null structs are not visible at inner rep levels in cases like LIST<STRUCT<LIST<...>>>
